@@ -8,7 +8,14 @@
 //!  * streaming vs loading on those WAVs and on the assets shipped with the repository, from
 //!    random start positions and under random seek sequences (output of the renderer at rate 1
 //!    matched against the statically loaded frames);
-//!  * all truncations, all single-byte header corruptions, sampled data corruptions.
+//!  * all truncations, all single-byte header corruptions, sampled data corruptions;
+//!  * a second format with a model, a FLAC subset (C18/ModelFlac.v): valid files from the harness's
+//!    own FLAC encoder (the model re-derives the bytes), loaded and streamed; and the malformed
+//!    stream that random corruption never reaches -- files that are INTACT at container level but
+//!    contain one frame the codec or the demuxer must reject (reserved subframe type, reserved
+//!    sample-size code, wasted-bits flag, CRC-16 / CRC-8 mismatch with everything else consistent)
+//!    or that are cut inside a frame, for every frame index: error value or the valid prefix,
+//!    never later audio moved up.
 use crate::backend::*;
 use crate::util::*;
 use kira::sound::static_sound::StaticSoundData;
@@ -190,25 +197,36 @@ pub struct FlSpec {
 /// a defect of ONE frame that leaves the container (sync code, frame lengths) intact
 #[derive(Clone, Copy, Debug, PartialEq)]
 pub enum Defect {
-	/// subframe type code `t` (reserved in FLAC) in the first subframe header, CRCs correct
-	ReservedSubframe(u8),
+	/// the subframe of channel `.0` announces the type code `.1` (reserved in FLAC); CRCs correct
+	ReservedSubframe(usize, u8),
 	/// reserved sample-size code (3 or 7) in the frame header, CRC-8 and CRC-16 recomputed
 	ReservedSampleSize(u8),
-	/// "wasted bits" flag set in the first subframe header although no such bits were removed, CRC-16 recomputed
-	WastedFlag,
+	/// "wasted bits" flag set in the subframe header of channel `.0` although nothing was removed, CRC-16 recomputed
+	WastedFlag(usize),
 	/// the frame's CRC-16 xor `d` (d != 0)
 	BadCrc16(u16),
 	/// the header's CRC-8 xor `d` (d != 0), CRC-16 recomputed over the changed frame
 	BadCrc8(u8),
 }
 impl Defect {
-	fn code(self) -> (i128, i128) {
+	/// (kind, argument, channel) as in C18/Run.v `mk_defect`
+	fn code(self) -> (i128, i128, i128) {
 		match self {
-			Defect::ReservedSubframe(t) => (1, t as i128),
-			Defect::ReservedSampleSize(c) => (2, c as i128),
-			Defect::WastedFlag => (3, 0),
-			Defect::BadCrc16(d) => (4, d as i128),
-			Defect::BadCrc8(d) => (5, d as i128),
+			Defect::ReservedSubframe(c, t) => (1, t as i128, c as i128),
+			Defect::ReservedSampleSize(c) => (2, c as i128, 0),
+			Defect::WastedFlag(c) => (3, 0, c as i128),
+			Defect::BadCrc16(d) => (4, d as i128, 0),
+			Defect::BadCrc8(d) => (5, d as i128, 0),
+		}
+	}
+	/// why the reference decoder stops there (C18/Run.v `stop_code`)
+	fn stop_code(self) -> i128 {
+		match self {
+			Defect::ReservedSubframe(..) => 8,
+			Defect::ReservedSampleSize(_) => 5,
+			Defect::WastedFlag(_) => 10,
+			Defect::BadCrc16(_) => 11,
+			Defect::BadCrc8(_) => 6,
 		}
 	}
 }
@@ -279,12 +297,10 @@ pub fn flac_frame(sp: &FlSpec, idx: usize, fr: &FlFrame, d: Option<Defect>) -> V
 			Sub::Const(_) => 0,
 			Sub::Verb(_) => 2,
 		};
-		if ci == 0 {
-			match d {
-				Some(Defect::ReservedSubframe(t)) => h = t << 1,
-				Some(Defect::WastedFlag) => h |= 1,
-				_ => {}
-			}
+		match d {
+			Some(Defect::ReservedSubframe(c, t)) if c == ci => h = t << 1,
+			Some(Defect::WastedFlag(c)) if c == ci => h |= 1,
+			_ => {}
 		}
 		f.push(h);
 		match s {
@@ -841,74 +857,570 @@ fn index_coded(n: usize) -> Vec<i128> {
 }
 
 
-fn probe_flac() {
-	let mk = |bps: u32, ch: u32, nfr: usize, bs: usize| -> (FlSpec, Vec<FlFrame>) {
-		let sp = FlSpec { bps, ch, rate: 44100, bs: bs as u32 };
-		let mut c = 0i64;
-		let frames = (0..nfr)
-			.map(|_| FlFrame { n: bs, subs: (0..ch).map(|_| Sub::Verb((0..bs).map(|_| { c += 1; c }).collect())).collect() })
-			.collect();
-		(sp, frames)
+// ------------------------------------------------------------------------------------------
+// FLAC: cases and monitors
+// ------------------------------------------------------------------------------------------
+/// the hash of C18/Run.v `fhash`
+fn fhash(b: &[u8]) -> u64 {
+	let mut h: u64 = 0;
+	for &x in b {
+		h = (h.wrapping_mul(257) + x as u64 + 1) & ((1u64 << 40) - 1);
+	}
+	h
+}
+fn hex(b: &[u8]) -> String {
+	b.iter().map(|x| format!("{:02x}", x)).collect()
+}
+fn term_frames(frames: &[FlFrame]) -> String {
+	let fr: Vec<String> = frames
+		.iter()
+		.map(|f| {
+			let subs: Vec<String> = f
+				.subs
+				.iter()
+				.map(|s| match s {
+					Sub::Const(v) => format!("SConst {}", z(*v as i128)),
+					Sub::Verb(xs) => format!("SVerb {}", zs(&xs.iter().map(|x| *x as i128).collect::<Vec<_>>())),
+				})
+				.collect();
+			format!("FF {} [{}]", f.n, subs.join("; "))
+		})
+		.collect();
+	format!("[{}]", fr.join("; "))
+}
+fn term_flac(ctor: &str, sp: &FlSpec, frames: &[FlFrame], bad: Option<(usize, Defect)>, cut: Option<usize>) -> String {
+	let (k, dk, da, dc) = match bad {
+		None => (-1, 0, 0, 0),
+		Some((k, d)) => {
+			let (dk, da, dc) = d.code();
+			(k as i128, dk, da, dc)
+		}
 	};
-	for (bps, ch, nfr, bs) in [(16u32, 1u32, 6usize, 16usize), (8, 2, 6, 32), (24, 2, 5, 64), (16, 2, 8, 64)] {
-		let (sp, frames) = mk(bps, ch, nfr, bs);
-		let exp = flac_expected(&sp, &frames).unwrap();
-		let (b, offs) = flac_encode(&sp, &frames, None);
-		let got = load_static(&b);
-		let ok = matches!(&got, Load::Ok { rate, frames } if *rate == 44100 && same_frames(frames, &exp).is_none());
-		eprintln!("valid bps={} ch={} frames={}x{} ({} bytes): {} exact={}", bps, ch, nfr, bs, b.len(), got.short(), ok);
-		let describe = |got: &Load| -> String {
-			match got {
-				Load::Ok { frames, .. } => {
-					// which source frame does each output block come from?
-					let mut blocks = vec![];
-					for c in frames.chunks(bs) {
-						let pos = (0..nfr).find(|&j| c.len() == bs && same_frames(c, &exp[j * bs..(j + 1) * bs]).is_none());
-						blocks.push(match pos { Some(j) => format!("{}", j), None => format!("?{}", c.len()) });
-					}
-					format!("Ok {} frames: blocks [{}]", frames.len(), blocks.join(","))
+	format!("{} {} {} {} {} {} {} {} {} {} {}", ctor, sp.bps, sp.ch, sp.rate, sp.bs, term_frames(frames), z(k), dk, da, dc, z(cut.map(|c| c as i128).unwrap_or(-1)))
+}
+/// what kira returned, samples as the integers the floats denote (the model side is Flocq-free;
+/// the floats themselves are checked bit for bit by the monitor and by the CFlacConv cases)
+fn flac_obs(sp: &FlSpec, bytes: &[u8], got: &Load) -> Vec<i128> {
+	let mut v = vec![fhash(bytes) as i128];
+	match got {
+		Load::Ok { rate, frames } => {
+			v.extend([0, *rate as i128, frames.len() as i128]);
+			let sc = (1u64 << (sp.bps - 1)) as f64;
+			for (l, r) in frames {
+				for x in [*l, *r] {
+					let y = x as f64 * sc;
+					v.push(if y.fract() != 0.0 || y.abs() > sc { 1 << 40 } else { y as i128 });
 				}
-				g => g.short(),
 			}
-		};
-		for k in [0usize, 1, nfr / 2, nfr - 1] {
-			for d in [Defect::ReservedSubframe(2), Defect::ReservedSampleSize(3), Defect::ReservedSampleSize(7), Defect::WastedFlag, Defect::BadCrc16(1), Defect::BadCrc8(0x55)] {
-				let (b, _) = flac_encode(&sp, &frames, Some((k, d)));
-				let got = load_static(&b);
-				let p = stream_play(&b, 44100, 0, &[], 4096);
-				let so: Vec<(f32, f32)> = p.out.iter().cloned().filter(|f| f.0 != 0.0 || f.1 != 0.0).collect();
-				eprintln!("  k={} {:?}: static {} | stream open={} n={} err={:?} nonzero={} ", k, d, describe(&got), p.open.short(), p.num_frames, p.error, describe(&Load::Ok { rate: 0, frames: so }));
+		}
+		Load::ErrChannels => v.push(1),
+		Load::Err(_) => v.push(2),
+		Load::Panic(_) => v.push(3),
+		Load::Hang => v.push(5),
+	}
+	v
+}
+/// Could symphonia's frame scanner take a position that is not a frame start for one?  (a sync
+/// code followed, at any header length, by a byte equal to the CRC-8 of what precedes it) --
+/// such files are not used: the monitors below reason frame by frame
+fn false_sync(bytes: &[u8], offs: &[usize]) -> bool {
+	for q in 42..bytes.len().saturating_sub(1) {
+		if bytes[q] == 0xFF && (bytes[q + 1] & 0xFC) == 0xF8 && !offs.contains(&q) {
+			for l in 4..=16 {
+				if q + l < bytes.len() && crc8(&bytes[q..q + l]) == bytes[q + l] {
+					return true;
+				}
 			}
-			let cut = (offs[k] + offs[k + 1]) / 2;
-			let got = load_static(&b[..cut]);
-			eprintln!("  k={} truncated inside: static {}", k, describe(&got));
-			let got = load_static(&b[..offs[k]]);
-			eprintln!("  k={} truncated at boundary: static {}", k, describe(&got));
 		}
 	}
-	// wasted flag with a constant 0 subframe (unary run longer than the sample size)
-	let sp = FlSpec { bps: 16, ch: 1, rate: 44100, bs: 16 };
-	let frames: Vec<FlFrame> = (0..4).map(|i| FlFrame { n: 16, subs: vec![if i == 2 { Sub::Const(0) } else { Sub::Verb((0..16).map(|t| (i * 16 + t + 1) as i64).collect()) }] }).collect();
-	let (b, _) = flac_encode(&sp, &frames, Some((2, Defect::WastedFlag)));
-	eprintln!("wasted flag on constant 0: {}", load_static(&b).short());
-	let (b, _) = flac_encode(&sp, &[], None);
-	eprintln!("no frames: {}", load_static(&b).short());
+	false
+}
+fn gen_fl_sample(r: &mut Rng, bps: u32) -> i64 {
+	let lo = -(1i64 << (bps - 1));
+	let hi = (1i64 << (bps - 1)) - 1;
+	match r.below(6) {
+		0 => *r.pick(&[lo, hi, 0, -1, 1, lo + 1, hi - 1, (hi + 1) / 2, lo / 2]),
+		_ => lo + (r.next() % ((hi - lo + 1) as u64)) as i64,
+	}
+}
+/// `distinct`: every time step differs from every other and none is silent (for the monitors
+/// that must tell WHICH part of the audio came out)
+fn gen_flac(r: &mut Rng, bps: u32, ch: u32, rate: u32, bs: u32, nfr: usize, short_last: bool, distinct: bool) -> (FlSpec, Vec<FlFrame>) {
+	let sp = FlSpec { bps, ch, rate, bs };
+	let hi = (1i64 << (bps - 1)) - 1;
+	let mut t: i64 = 0;
+	let frames = (0..nfr)
+		.map(|i| {
+			let n = if short_last && i + 1 == nfr { 1 + r.below(bs as u64) as usize } else { bs as usize };
+			let subs = (0..ch as usize)
+				.map(|c| {
+					if distinct {
+						if c == 0 {
+							// a counter in the first channel: 1, 2, 3, ... (wrapping inside the sample range, never 0)
+							Sub::Verb((0..n).map(|_| { t += 1; let m = 2 * hi; let x = (t - 1) % m + 1; if x > hi { x - m - 1 } else { x } }).collect())
+						} else if r.chance(1, 3) {
+							Sub::Const(gen_fl_sample(r, bps))
+						} else {
+							Sub::Verb((0..n).map(|_| gen_fl_sample(r, bps)).collect())
+						}
+					} else if r.chance(1, 4) {
+						Sub::Const(gen_fl_sample(r, bps))
+					} else {
+						Sub::Verb((0..n).map(|_| gen_fl_sample(r, bps)).collect())
+					}
+				})
+				.collect();
+			FlFrame { n, subs }
+		})
+		.collect();
+	(sp, frames)
+}
+fn flac_desc(sp: &FlSpec, frames: &[FlFrame], bytes: &[u8]) -> String {
+	let ns: Vec<String> = frames.iter().map(|f| f.n.to_string()).collect();
+	let body = if bytes.len() <= 400 { format!("file {}", hex(bytes)) } else { format!("{}", term_frames(frames)) };
+	format!("FLAC {} bit ch={} rate={} blocksize={} frames of [{}] samples ({} bytes, hash {:#x}; {})", sp.bps, sp.ch, sp.rate, sp.bs, ns.join(","), bytes.len(), fhash(bytes), body)
+}
+fn flac_rate(r: &mut Rng) -> u32 {
+	match r.below(4) {
+		0 => *r.pick(&[8000, 11025, 22050, 44100, 48000, 96000, 192000]),
+		1 => *r.pick(&[1, 2, 255, 256, 65535, 65536, 655350, 655349]),
+		_ => 1 + r.below(655_350) as u32,
+	}
+}
+
+/// a valid file: loading gives exactly the encoded audio; the model agrees on bytes and samples
+fn check_flac_valid(s: &mut Session, sp: &FlSpec, frames: &[FlFrame], to_model: bool) -> Option<(Vec<u8>, Vec<usize>, Vec<(f32, f32)>)> {
+	let (bytes, offs) = flac_encode(sp, frames, None);
+	if false_sync(&bytes, &offs) {
+		s.count("flac_skipped_accidental_sync_code");
+		return None;
+	}
+	let got = load_static(&bytes);
+	let desc = format!("valid {}", flac_desc(sp, frames, &bytes));
+	let total: usize = frames.iter().map(|f| f.n).sum();
+	let exp = flac_expected(sp, frames);
+	match (&got, &exp) {
+		(Load::Ok { rate, frames: fr }, Some(e)) => {
+			if *rate != sp.rate {
+				s.fail(desc.clone(), format!("sample rate {} instead of {}", rate, sp.rate), None);
+			}
+			if fr.len() != total {
+				s.fail(desc.clone(), format!("{} frames instead of {}", fr.len(), total), None);
+			} else if let Some(i) = same_frames(fr, e) {
+				s.fail(desc.clone(), format!("frame {} is ({:#x},{:#x}), the file encodes ({:#x},{:#x})", i, fr[i].0.to_bits(), fr[i].1.to_bits(), e[i].0.to_bits(), e[i].1.to_bits()), None);
+			}
+		}
+		(Load::ErrChannels, None) => {}
+		(g, _) => s.fail(desc.clone(), format!("loading gave {}", g.short()), None),
+	}
+	if to_model {
+		let key = format!("flac/{}/{}/{}/{}", sp.bps, sp.ch.min(3), frames.len().min(4), frames.last().map(|f| f.n != sp.bs as usize).unwrap_or(false));
+		s.case("flac_valid", term_flac("CFlac", sp, frames, None, None), &flac_obs(sp, &bytes, &got), Some(key));
+		if bytes.len() > 1500 {
+			s.flush();
+		}
+	} else {
+		s.eval_only("flac_valid_monitor_only");
+	}
+	exp.map(|e| (bytes, offs, e))
+}
+
+enum Wasted {
+	/// the frame read with the wasted-bits count it announces
+	Reading(Vec<i64>),
+	/// the announced count is not below the sample size: there is no such reading
+	TooMany(u32),
+	OutOfBits,
+}
+/// the bit-level reading of the subframe of channel `c` (the LAST channel) of frame `k` when its
+/// wasted-bits flag is set: unary count, then samples of (bps - wasted) bits, shifted back
+fn wasted_reading(sp: &FlSpec, fr: &FlFrame, frame_bytes: &[u8]) -> Wasted {
+	let w = (sp.bps / 8) as usize;
+	let mut off = 7;
+	for s in &fr.subs[..fr.subs.len() - 1] {
+		off += 1 + match s {
+			Sub::Const(_) => w,
+			Sub::Verb(_) => fr.n * w,
+		};
+	}
+	let is_const = frame_bytes[off] >> 1 == 0;
+	let bits = &frame_bytes[off + 1..];
+	let mut pos = 0usize;
+	let bit = |pos: &mut usize| -> Option<u64> {
+		let b = bits.get(*pos / 8)?;
+		let v = (b >> (7 - *pos % 8)) & 1;
+		*pos += 1;
+		Some(v as u64)
+	};
+	let mut zeros = 0u32;
+	loop {
+		match bit(&mut pos) {
+			None => return Wasted::OutOfBits,
+			Some(1) => break,
+			Some(_) => zeros += 1,
+		}
+	}
+	let wasted = zeros + 1;
+	if wasted >= sp.bps {
+		return Wasted::TooMany(wasted);
+	}
+	let b2 = sp.bps - wasted;
+	let read = |pos: &mut usize| -> Option<i64> {
+		let mut u: u64 = 0;
+		for _ in 0..b2 {
+			u = (u << 1) | bit(pos)?;
+		}
+		let v = if u >= 1u64 << (b2 - 1) { u as i64 - (1i64 << b2) } else { u as i64 };
+		Some(v << wasted)
+	};
+	let xs: Option<Vec<i64>> = if is_const { read(&mut pos).map(|v| vec![v; fr.n]) } else { (0..fr.n).map(|_| read(&mut pos)).collect() };
+	match xs {
+		Some(xs) => Wasted::Reading(xs),
+		None => Wasted::OutOfBits,
+	}
+}
+
+/// is `class` listed (status known) in known_findings.json?  A deviation of a class that is not
+/// listed yet is reported as a note (candidate finding) instead of a failure.
+fn class_listed(class: &str) -> bool {
+	let root = std::env::var("VERIF_DIR").unwrap_or_else(|_| "/verif".to_string());
+	match std::fs::read_to_string(format!("{}/known_findings.json", root)) {
+		Ok(t) => t.contains(&format!("\"class\": \"{}\"", class)) || t.contains(&format!("\"class\":\"{}\"", class)),
+		Err(_) => false,
+	}
+}
+fn report_class(s: &mut Session, desc: String, what: String, class: &str) {
+	if class_listed(class) {
+		s.fail(desc, what, Some(class));
+	} else {
+		let key = format!("candidate_finding_{}", class);
+		if !s.hist.contains_key(&key) {
+			s.notes.push(format!("CANDIDATE FINDING (class {} not listed in known_findings.json, so not raised): {}: {}", class, desc, what));
+		}
+		s.count(&key);
+	}
+}
+
+#[derive(Clone, Copy, Debug, PartialEq)]
+enum Damage {
+	Frame(Defect),
+	/// the file is cut `j` bytes into frame k (0 = at its first byte)
+	Cut(usize),
+}
+
+/// One malformed file: frame `k` of (sp, frames) damaged.  The property clause: loading gives an
+/// error value or exactly a prefix of the audio that ends at a frame boundary at or before
+/// frame k; never a panic, a hang, or anything else; streaming agrees with loading.
+fn check_flac_bad(s: &mut Session, sp: &FlSpec, frames: &[FlFrame], orig: &[(f32, f32)], k: usize, dmg: Damage, stream: bool) {
+	let (bytes, offs) = match dmg {
+		Damage::Frame(d) => flac_encode(sp, frames, Some((k, d))),
+		Damage::Cut(j) => {
+			let (mut b, o) = flac_encode(sp, frames, None);
+			b.truncate(o[k] + j);
+			(b, o)
+		}
+	};
+	if false_sync(&bytes, &offs) {
+		s.count("flac_skipped_accidental_sync_code");
+		return;
+	}
+	let what_dmg = match dmg {
+		Damage::Frame(d) => format!("{:?}", d),
+		Damage::Cut(j) => format!("cut {} bytes into the frame ({} of {} bytes kept)", j, bytes.len(), offs[offs.len() - 1]),
+	};
+	let desc = format!("malformed {} -- frame k={} damaged: {}", flac_desc(sp, frames, &bytes), k, what_dmg);
+	// audio frames before frame i
+	let mut before = vec![0usize];
+	for f in frames {
+		before.push(before.last().unwrap() + f.n);
+	}
+	let got = load_static(&bytes);
+	// the cut removed nothing but (part of) the 2-byte CRC-16 field that ends frame k
+	let footer_only = match dmg {
+		Damage::Cut(j) => j + 2 >= offs[k + 1] - offs[k],
+		_ => false,
+	};
+	// ---- the property clause on the static load
+	let mut class_a = false;
+	let verdict: Result<(), (String, Option<&'static str>)> = match &got {
+		Load::Err(_) | Load::ErrChannels => Ok(()),
+		Load::Panic(m) => {
+			// a wasted-bits count above the sample size: symphonia subtracts without checking
+			let too_many = match dmg {
+				Damage::Frame(Defect::WastedFlag(_)) => matches!(wasted_reading(sp, &frames[k], &bytes[offs[k]..offs[k + 1]]), Wasted::TooMany(w) if w > sp.bps),
+				_ => false,
+			};
+			let c = if too_many && m.contains("subtract with overflow") { Some("flac_wasted_bits_not_validated") } else { None };
+			Err((format!("loading gave {}", got.short()), c))
+		}
+		Load::Hang => Err(("loading gave HANG".into(), None)),
+		Load::Ok { rate, frames: fr } => {
+			let is_prefix = fr.len() <= orig.len() && same_frames(fr, &orig[..fr.len()]).is_none();
+			if *rate != sp.rate {
+				Err((format!("sample rate {} instead of {}", rate, sp.rate), None))
+			} else if is_prefix && fr.len() <= before[k] && before.contains(&fr.len()) {
+				Ok(())
+			} else if is_prefix && fr.len() == before[k + 1] && footer_only {
+				// only (part of) the CRC-16 field of frame k is missing: all of its audio is in the file
+				// (symphonia accepts such a frame when the byte it still sees happens to check out)
+				s.count("flac_cut_in_crc_field_frame_delivered");
+				Ok(())
+			} else {
+				// not the valid prefix.  What is it?
+				let mut without_k: Vec<(f32, f32)> = orig[..before[k]].to_vec();
+				without_k.extend_from_slice(&orig[before[k + 1]..]);
+				let skipped = same_frames(fr, &without_k).is_none();
+				let first_bad = (0..fr.len()).find(|&i| i >= orig.len() || obs32(fr[i].0) != obs32(orig[i].0) || obs32(fr[i].1) != obs32(orig[i].1));
+				let what = format!(
+					"loading gave {}: neither an error nor a prefix of the audio ending at a frame boundary <= {} (the start of the damaged frame){}{}",
+					got.short(),
+					before[k],
+					match first_bad {
+						Some(i) => format!("; output frame {} is not what the file holds there", i),
+						None => format!("; it contains {} frames from the damaged frame on", fr.len() - before[k]),
+					},
+					if skipped { "; it is the audio with the damaged frame left out and everything after it moved up" } else { "" }
+				);
+				match dmg {
+					// the demuxer (symphonia) rejects the frame and resynchronises: known class, only when
+					// the outcome is exactly "frame k left out"
+					Damage::Frame(Defect::BadCrc16(_)) | Damage::Frame(Defect::BadCrc8(_)) | Damage::Frame(Defect::ReservedSampleSize(_)) if skipped => {
+						class_a = true;
+						Err((what, Some("flac_damaged_frame_skipped")))
+					}
+					// wasted-bits flag: the frame still has ONE reading as FLAC (followed by surplus bits);
+					// a lenient decoder that returns exactly that reading has not invented anything
+					Damage::Frame(Defect::WastedFlag(c)) => {
+						let fb = &bytes[offs[k]..offs[k + 1]];
+						let with_block = |xs: &[i64]| -> Vec<(f32, f32)> {
+							let mut e = orig.to_vec();
+							for (t, x) in xs.iter().enumerate() {
+								let v = flac_conv(sp.bps, *x);
+								let i = before[k] + t;
+								if sp.ch == 1 {
+									e[i] = (v, v);
+								} else if c == 0 {
+									e[i].0 = v;
+								} else {
+									e[i].1 = v;
+								}
+							}
+							e
+						};
+						match wasted_reading(sp, &frames[k], fb) {
+							Wasted::Reading(xs) if same_frames(fr, &with_block(&xs)).is_none() => {
+								s.count("flac_wasted_flag_lenient_reading_tolerated");
+								Ok(())
+							}
+							// a count equal to the sample size is not rejected: the block comes out as silence
+							Wasted::TooMany(w) if w == sp.bps && same_frames(fr, &with_block(&vec![0; frames[k].n])).is_none() => {
+								Err((format!("{}; the subframe announces {} wasted bits of {}: the block is returned as silence", what, w, sp.bps), Some("flac_wasted_bits_not_validated")))
+							}
+							_ => Err((what, None)),
+						}
+					}
+					_ => Err((what, None)),
+				}
+			}
+		}
+	};
+	if let Err((what, class)) = &verdict {
+		match class {
+			Some(c) => report_class(s, desc.clone(), what.clone(), c),
+			None => s.fail(desc.clone(), what.clone(), None),
+		}
+	}
+	// ---- the model: bytes + the reference decoder's verdict; the outcome where kira is expected to follow it
+	let follows_reference = match dmg {
+		Damage::Frame(Defect::ReservedSubframe(..)) => true,
+		// symphonia finds the end of a frame by locating the next frame header: with fewer than 16
+		// bytes of frame k left the last complete frame may be lost too (still a prefix)
+		Damage::Cut(j) => (j >= 16 || j == 0) && !(k == 0 && j == 0) && !footer_only,
+		_ => false,
+	};
+	let (bad, cut) = match dmg {
+		Damage::Frame(d) => (Some((k, d)), None),
+		Damage::Cut(_) => (None, Some(bytes.len())),
+	};
+	if follows_reference && verdict.is_ok() {
+		s.case("flac_malformed", term_flac("CFlac", sp, frames, bad, cut), &flac_obs(sp, &bytes, &got), Some(format!("flacbad/{}/{}/{}/{:?}", sp.bps, sp.ch, k, dmg)));
+	} else {
+		let stop = match dmg {
+			Damage::Frame(d) => d.stop_code(),
+			Damage::Cut(0) => 1,
+			Damage::Cut(_) => 3,
+		};
+		s.case("flac_malformed_reference_verdict", term_flac("CFlacStop", sp, frames, bad, cut), &[fhash(&bytes) as i128, stop, k as i128], Some(format!("flacbad/{}/{}/{}/{:?}", sp.bps, sp.ch, k, dmg)));
+	}
+	// ---- streaming the same bytes: never a panic or a hang; what is heard is a prefix of what loading
+	// returned (of the valid prefix, if loading gave an error), then silence
+	if !stream || !rate_exact(sp.rate) {
+		return;
+	}
+	let p = stream_play(&bytes, sp.rate, 0, &[], 4096);
+	s.eval_only("flac_stream_malformed");
+	let sdesc = format!("{} -- streamed", desc);
+	if matches!(p.open, Load::Panic(_) | Load::Hang) || p.hang {
+		let c = if matches!(dmg, Damage::Frame(Defect::WastedFlag(_))) && p.open.short().contains("subtract with overflow") { Some("flac_wasted_bits_not_validated") } else { None };
+		match c {
+			Some(c) => report_class(s, sdesc, format!("streaming gave {} (loading: {})", p.open.short(), got.short()), c),
+			None => s.fail(sdesc, format!("streaming gave {} (loading: {})", p.open.short(), got.short()), None),
+		}
+		return;
+	}
+	if !matches!(p.open, Load::Ok { .. }) {
+		return; // an error value
+	}
+	let valid: Vec<(f32, f32)> = match &got {
+		Load::Ok { frames, .. } => frames.clone(),
+		_ => orig[..before[k]].to_vec(),
+	};
+	let pp = Played { open: p.open.clone(), num_frames: p.num_frames, out: p.out.clone(), issued_at: vec![], error: p.error.clone(), stopped: false, hang: false };
+	if let Err(e) = match_stream(&valid, 0, &[], &pp) {
+		let what = format!("streaming does not agree with loading ({}): {}", got.short(), e);
+		if class_a {
+			report_class(s, sdesc, what, "flac_damaged_frame_skipped");
+		} else {
+			s.fail(sdesc, what, None);
+		}
+	}
+}
+
+fn run_flac(s: &mut Session, rng: &mut Rng, args: &Args, mul: u64) {
+	// ---------- valid files ----------------------------------------------------------------------
+	// small enumeration: every sample size x mono/stereo x 1..3 frames x {full, short last frame}
+	let mut bases: Vec<(FlSpec, Vec<FlFrame>, Vec<(f32, f32)>)> = vec![];
+	for bps in [8u32, 16, 24] {
+		for ch in [1u32, 2] {
+			for nfr in [1usize, 2, 3] {
+				for short in [false, true] {
+					let rate = flac_rate(rng);
+					let (sp, frames) = gen_flac(rng, bps, ch, rate, 16, nfr, short, false);
+					check_flac_valid(s, &sp, &frames, true);
+				}
+			}
+		}
+		// the boundary samples of the size, and their float conversion through the model
+		let lo = -(1i64 << (bps - 1));
+		let hi = -lo - 1;
+		let mut xs = vec![lo, lo + 1, -1, 0, 1, hi - 1, hi, (hi + 1) / 2, lo / 2, 3, -3];
+		while xs.len() < 16 {
+			xs.push(gen_fl_sample(rng, bps));
+		}
+		let sp = FlSpec { bps, ch: 1, rate: 44100, bs: 16 };
+		let frames = vec![FlFrame { n: 16, subs: vec![Sub::Verb(xs.clone())] }];
+		let (bytes, _) = flac_encode(&sp, &frames, None);
+		if let Load::Ok { frames: fr, .. } = load_static(&bytes) {
+			let o: Vec<i128> = fr.iter().map(|f| obs32(f.0)).collect();
+			s.case("flac_conversion", format!("CFlacConv {} {}", bps, zs(&xs.iter().map(|x| *x as i128).collect::<Vec<_>>())), &o, Some(format!("flacconv/{}", bps)));
+		}
+		check_flac_valid(s, &sp, &frames, true);
+	}
+	// more than two channels: the documented error
+	for ch in [3u32, 8] {
+		let (sp, frames) = gen_flac(rng, 16, ch, 44100, 16, 2, false, false);
+		check_flac_valid(s, &sp, &frames, true);
+	}
+	for i in 0..(40 * mul) {
+		let bps = *rng.pick(&[8u32, 16, 24]);
+		let ch = *rng.pick(&[1u32, 1, 2, 2, 2]);
+		let bs = 16 + rng.below(49) as u32;
+		let nfr = 1 + rng.below(8) as usize;
+		let rate = flac_rate(rng);
+		let short = rng.chance(1, 2);
+		let (sp, frames) = gen_flac(rng, bps, ch, rate, bs, nfr, short, false);
+		check_flac_valid(s, &sp, &frames, i % 2 == 0);
+	}
+	// ---------- streaming equals loading (valid files, random start positions and seeks) ---------
+	for i in 0..(4 * mul) {
+		let bps = [16u32, 24, 8, 16][(i % 4) as usize];
+		let ch = 1 + (i % 2) as u32;
+		let sr = *rng.pick(&[8000u32, 22050, 44100, 48000]);
+		let (sp, frames) = gen_flac(rng, bps, ch, sr, 64, 8, i % 2 == 1, true);
+		if let Some((bytes, _, exp)) = check_flac_valid(s, &sp, &frames, false) {
+			let n = exp.len();
+			let what = format!("generated FLAC {} bit ch={} rate={} frames={}", bps, ch, sr, n);
+			check_stream(s, &what, &bytes, &exp, sr, 0, &[], usize::MAX);
+			check_stream(s, &what, &bytes, &exp, sr, rng.below(n as u64) as usize, &[], usize::MAX);
+			let seeks: Vec<(usize, usize)> = vec![(0, rng.below(n as u64) as usize)];
+			check_stream(s, &what, &bytes, &exp, sr, rng.below(n as u64) as usize, &seeks, usize::MAX);
+		}
+	}
+	// ---------- malformed files: one damaged frame, container intact -----------------------------
+	let nbases = 5 * mul as usize;
+	let mut tries = 0;
+	while bases.len() < nbases && tries < 200 {
+		tries += 1;
+		let i = bases.len();
+		let bps = [16u32, 8, 24, 16, 24, 8][i % 6];
+		let ch = [1u32, 2, 2, 2, 1, 1][i % 6];
+		let bs = *rng.pick(&[16u32, 17, 24, 32, 48, 64]);
+		let nfr = 3 + rng.below(6) as usize;
+		let sr = *rng.pick(&[8000u32, 22050, 44100, 48000]);
+		let short = rng.chance(1, 2);
+		let (sp, frames) = gen_flac(rng, bps, ch, sr, bs, nfr, short, true);
+		if let Some((_, _, exp)) = check_flac_valid(s, &sp, &frames, true) {
+			bases.push((sp, frames, exp));
+		}
+	}
+	for (bi, (sp, frames, orig)) in bases.iter().enumerate() {
+		let (_, offs) = flac_encode(sp, frames, None);
+		for k in 0..frames.len() {
+			let last_ch = sp.ch as usize - 1;
+			let mut dmg: Vec<Damage> = vec![
+				Damage::Frame(Defect::ReservedSubframe(0, 2)),
+				Damage::Frame(Defect::ReservedSubframe(rng.below(sp.ch as u64) as usize, *rng.pick(&[3u8, 7, 13, 15, 16, 31, 20]))),
+				Damage::Frame(Defect::ReservedSampleSize(if rng.chance(1, 2) { 3 } else { 7 })),
+				Damage::Frame(Defect::WastedFlag(last_ch)),
+				Damage::Frame(Defect::BadCrc16(1 + rng.below(65535) as u16)),
+				Damage::Frame(Defect::BadCrc8(1 + rng.below(255) as u8)),
+			];
+			if args.thorough {
+				dmg.push(Damage::Frame(Defect::ReservedSampleSize(3)));
+				dmg.push(Damage::Frame(Defect::ReservedSampleSize(7)));
+				dmg.push(Damage::Frame(Defect::BadCrc16(1)));
+				dmg.push(Damage::Frame(Defect::BadCrc16(0x8000)));
+				dmg.push(Damage::Frame(Defect::BadCrc8(0x80)));
+			}
+			let len = offs[k + 1] - offs[k];
+			let mut cuts = vec![0usize, 1, 7, 8, 16, len / 2, len - 2, len - 1];
+			cuts.push(1 + rng.below(len as u64 - 1) as usize);
+			cuts.sort();
+			cuts.dedup();
+			for j in cuts {
+				if j < len {
+					dmg.push(Damage::Cut(j));
+				}
+			}
+			for (di, d) in dmg.iter().enumerate() {
+				// every damaged file is loaded; a third of them is also streamed (playback is slow)
+				let stream = (bi + k + di) % 3 == 0 || args.thorough;
+				check_flac_bad(s, sp, frames, orig, k, *d, stream);
+			}
+		}
+		s.flush();
+	}
+	// a subframe whose wasted-bits count exceeds the sample size (all-zero constant subframe)
+	{
+		let sp = FlSpec { bps: 16, ch: 1, rate: 44100, bs: 16 };
+		let frames: Vec<FlFrame> = (0..4).map(|i| FlFrame { n: 16, subs: vec![if i == 2 { Sub::Const(0) } else { Sub::Verb((0..16).map(|t| (i * 16 + t + 1) as i64).collect()) }] }).collect();
+		if let Some(orig) = flac_expected(&sp, &frames) {
+			check_flac_bad(s, &sp, &frames, &orig, 2, Damage::Frame(Defect::WastedFlag(0)), true);
+		}
+	}
+	s.notes.push("FLAC: files of the modelled subset (STREAMINFO + fixed-blocksize frames, CONSTANT / VERBATIM subframes, 8/16/24 bit, CRC-8 / CRC-16) from the harness's own encoder, whose bytes the model re-derives; malformed stream = one frame damaged with the container intact (reserved subframe type, reserved sample-size code, wasted-bits flag, CRC-16, CRC-8) or the file cut inside it, for every frame index; the monitor accepts an error value or a prefix of the audio ending at a frame boundary at or before the damaged frame. A frame whose wasted-bits flag was set still has one reading as FLAC (followed by surplus bits before the CRC); a loader returning exactly that reading is tolerated and counted (flac_wasted_flag_lenient_reading_tolerated). Ogg/MP3 'intact container, undecodable packet' files are not generated (a valid Ogg page around a corrupted Vorbis packet needs a Vorbis bitstream writer)".into());
 }
 
 pub fn run(args: &Args) {
-	if std::env::var("C18_PROBE").is_ok() {
-		probe_flac();
-		return;
-	}
 	let mut rng = Rng::new(args.seed ^ 0xC18);
 	let mul = args.budget_mul * if args.thorough { 8 } else { 1 };
 	let mut s = Session::new(
 		"C18",
 		&args.out,
-		"From Coq Require Import ZArith List. Import ListNotations. Open Scope Z_scope.\nFrom KV Require Import Base.Corr C18.Run.",
+		"From Coq Require Import ZArith List. Import ListNotations. Open Scope Z_scope.\nFrom KV Require Import Base.Corr C18.ModelFlac C18.Run.",
 		"run",
 		120,
-		"one case = one file (valid WAV of a given encoding/channels/length class, a truncation, a header or data corruption) loaded with StaticSoundData::from_cursor, or one streaming playback (file, start, seek sequence); distinct = distinct (encoding, channel class, length class) / (file, corrupted offset, value) / (file, start, seeks); non-trivial = at least one frame decoded or an error produced",
+		"one case = one file (valid WAV of a given encoding/channels/length class, a truncation, a header or data corruption; valid FLAC of the modelled subset, or one with a single damaged frame / cut inside a frame) loaded with StaticSoundData::from_cursor, or one streaming playback (file, start, seek sequence); distinct = distinct (encoding, channel class, length class) / (file, corrupted offset, value) / (file, start, seeks) / (FLAC sample size, channels, damaged frame index, damage); non-trivial = at least one frame decoded or an error produced",
 	);
 	s.keep_case_text = true;
 	let t_start = Instant::now();
@@ -1281,6 +1793,12 @@ pub fn run(args: &Args) {
 	}
 
 	lap("corruptions done");
+	// ---------- (e) a second format with a model: the FLAC subset ---------------------------------
+	// (the stream of util::Rng for seed s+2 is the stream for seed s two draws later, and the two can
+	// fall into step again: the FLAC cases get a generator whose state also depends on the seed itself)
+	let mut frng = Rng::new(rng.next() ^ args.seed.wrapping_mul(0xD6E8_FEB8_6659_FD93).rotate_left(17));
+	run_flac(&mut s, &mut frng, args, mul);
+	lap("FLAC done");
 	// ---------- (d) the scheduler model on symphonia's WAV packetisation -------------------------
 	for _ in 0..(3 * mul) {
 		let n = 1 + rng.below(1500) as usize;
